@@ -20,7 +20,7 @@ def main() -> int:
     d = os.path.join(VERIF, "seeded", sid)
     meta = json.load(open(os.path.join(d, "meta.json")))
     checks = sys.argv[2:] or [meta["property"]]
-    if str(meta.get("status", "")).startswith("neutralised") and not sys.argv[2:]:
+    if str(meta.get("status", "")).startswith(("neutralised", "not reached by design")) and not sys.argv[2:]:
         print(f"{sid}: {meta['status'][:90]}… (skipped)")
         return 0
     tmp = tempfile.mkdtemp(prefix="verif-seed-")
